@@ -4,6 +4,7 @@
 #![allow(dead_code)]
 mod c09;
 mod c10;
+mod c11;
 mod c15;
 mod gallina;
 mod impls;
@@ -57,6 +58,7 @@ fn main() {
     match args[1].to_ascii_lowercase().as_str() {
         "c09" => c09::run(&ctx),
         "c10" => c10::run(&ctx),
+        "c11" => c11::run(&ctx),
         "c15" => c15::run(&ctx),
         other => {
             eprintln!("unknown property {other}");
